@@ -11,6 +11,7 @@ import (
 	"sort"
 
 	"github.com/zclconf/go-cty/cty"
+	"github.com/zclconf/go-cty/cty/function/stdlib"
 	"golang.org/x/text/unicode/norm"
 )
 
@@ -22,6 +23,8 @@ var capsules = map[string]cty.Type{
 	"c2": cty.Capsule("c2", reflect.TypeOf("")),
 	// a second capsule type with the same name and the same native type as c1: a distinct type
 	"c1x": cty.Capsule("c1", reflect.TypeOf(0)),
+	// the standard library's byte-buffer capsule type
+	"bytes": stdlib.Bytes,
 }
 
 func capsuleName(t cty.Type) string {
@@ -351,7 +354,11 @@ func projectPublic(v cty.Value) J {
 			out["bad"] = "key or attribute name not NFC-normalized"
 		}
 	case ty.IsCapsuleType():
-		out["v"] = J{"c": fmt.Sprintf("%v", reflect.ValueOf(uv.EncapsulatedValue()).Elem().Interface())}
+		if bp, ok := uv.EncapsulatedValue().(*[]byte); ok {
+			out["v"] = J{"c": string(*bp)}
+		} else {
+			out["v"] = J{"c": fmt.Sprintf("%v", reflect.ValueOf(uv.EncapsulatedValue()).Elem().Interface())}
+		}
 	default:
 		out["bad"] = "known value of type " + ty.GoString()
 	}
